@@ -210,7 +210,7 @@ func (e *Explorer) runOne(sol *smt.Solver, prefix []Dec, infos *map[*ssa.Functio
 				case abortPath:
 					status, why = "abort", x.why
 				case inconclusive:
-					status, why = "inconclusive", x.why
+					status, why = "inconclusive", x.why+" @ "+in.whereAmI()
 				default:
 					status, why = "inconclusive", fmt.Sprintf("engine panic: %v\n%s", r, debug.Stack())
 				}
